@@ -18,7 +18,7 @@ def Fresh : (n : Nat) → Mach n → Prop
   | 0 => FreshL (fun (_ : Empty) => True)
   | n + 1 => FreshL (Fresh n)
 
-theorem fresh_inv : ∀ n (m : Mach n), Fresh n m → Inv n m ∧ (subOps true n).isRunning m = false ∧ Bal n m []
+theorem fresh_inv : ∀ n (m : Mach n), Fresh n m → Inv n m ∧ (subOps n).isRunning m = false ∧ Bal n m []
   | 0, m, h => by
     refine ⟨⟨by rw [h.1]; decide, fun sid st x _ _ => x.elim⟩, by show m.rt.running = false; rw [h.1], ?_, fun sid st x _ _ => x.elim⟩
     intro s; simp [ownDelta, cur, h.1]
@@ -34,33 +34,33 @@ theorem fresh_inv : ∀ n (m : Mach n), Fresh n m → Inv n m ∧ (subOps true n
 /-! ### one API call on the root -/
 
 theorem applyCall_inv (n : Nat) (m : Mach n) (c : Call) (hm : Inv n m) :
-    Inv n (applyCall true n m c).1 ∧ AllRejected (applyCall true n m c).2.2 := by
+    Inv n (applyCall n m c).1 ∧ AllRejected (applyCall n m c).2.2 := by
   have H := inv_all n
   cases c with
-  | start => exact H.start m hm
-  | stop => exact ⟨(H.stop m hm).1, (H.stop m hm).2.2⟩
+  | start => exact H.start [] m allBusy_nil hm
+  | stop => exact ⟨(H.stop [] m allBusy_nil hm).1, (H.stop [] m allBusy_nil hm).2.2⟩
   | restart =>
-    have h1 := H.stop m hm
-    have h2 := H.start _ h1.1
+    have h1 := H.stop [] m allBusy_nil hm
+    have h2 := H.start [] _ allBusy_nil h1.1
     exact ⟨h2.1, allRejected_append.2 ⟨h1.2.2, h2.2⟩⟩
-  | run e => exact H.run m e hm
+  | run e => exact H.run [] m e allBusy_nil hm
 
 theorem applyCall_ref (n : Nat) (m : Mach n) (c : Call) (hm : Inv n m) :
-    (abs n (applyCall true n m c).1, (applyCall true n m c).2) = Spec.applyCall n (abs n m) c := by
+    (abs n (applyCall n m c).1, (applyCall n m c).2) = Spec.applyCall n (abs n m) c := by
   have H := inv_all n
   have R := ref_all n
   cases c with
-  | start => exact R.start m hm
+  | start => exact R.start [] m allBusy_nil hm
   | stop =>
-    have := R.stop m hm
+    have := R.stop [] m allBusy_nil hm
     simp only [applyCall, Spec.applyCall]
-    rw [← this]
+    rw [show ([] : Spec.SCtx) = absCtx [] from rfl, ← this]
   | restart =>
-    have h1 := R.stop m hm
-    have h2 := R.start _ (H.stop m hm).1
+    have h1 := R.stop [] m allBusy_nil hm
+    have h2 := R.start [] _ allBusy_nil (H.stop [] m allBusy_nil hm).1
     simp only [applyCall, Spec.applyCall]
-    rw [← h1]; simp only []; rw [← h2]
-  | run e => exact R.run m e hm
+    rw [show ([] : Spec.SCtx) = absCtx [] from rfl, ← h1]; simp only []; rw [← h2]
+  | run e => exact R.run [] m e allBusy_nil hm
 
 theorem rootView_abs : ∀ (n : Nat) (m : Mach n), Inv n m → (rootRt n m).view = Spec.view (Spec.rootRt n (abs n m))
   | 0, m, h => by
@@ -74,22 +74,22 @@ theorem rootView_abs : ∀ (n : Nat) (m : Mach n), Inv n m → (rootRt n m).view
 def allTrace (l : List (Bool × Trace × View)) : Trace := l.flatMap (fun r => r.2.1)
 
 theorem exec_bal (n : Nat) (m : Mach n) (hm : Inv n m) (T : Trace) (hb : Bal n m T) (calls : List Call) :
-    Bal n (exec true n m calls).1 (T ++ allTrace (exec true n m calls).2) := by
+    Bal n (exec n m calls).1 (T ++ allTrace (exec n m calls).2) := by
   induction calls generalizing m T with
   | nil => simpa [exec, allTrace] using hb
   | cons c cs ih =>
     have H := inv_all n
     have BL := bal_all n
     have h1 := applyCall_inv n m c hm
-    have hb1 : Bal n (applyCall true n m c).1 (T ++ (applyCall true n m c).2.2) := by
+    have hb1 : Bal n (applyCall n m c).1 (T ++ (applyCall n m c).2.2) := by
       cases c with
-      | start => exact BL.start m T hm hb
-      | stop => exact BL.stop m T hm hb
+      | start => exact BL.start [] m T allBusy_nil hm hb
+      | stop => exact BL.stop [] m T allBusy_nil hm hb
       | restart =>
-        have := BL.start _ _ (H.stop m hm).1 (BL.stop m T hm hb)
+        have := BL.start [] _ _ allBusy_nil (H.stop [] m allBusy_nil hm).1 (BL.stop [] m T allBusy_nil hm hb)
         rw [List.append_assoc] at this
         exact this
-      | run e => exact BL.run m e T hm hb
+      | run e => exact BL.run [] m e T allBusy_nil hm hb
     have := ih _ h1.1 _ hb1
     simp only [exec, allTrace, List.flatMap_cons] at this ⊢
     rw [List.append_assoc] at this
@@ -104,7 +104,7 @@ def AllExited : (n : Nat) → Mach n → Trace → Prop
   | 0 => AllExitedL (fun (_ : Empty) _ => True)
   | n + 1 => AllExitedL (AllExited n)
 
-theorem stopped_allExited : ∀ (n : Nat) (m : Mach n) (T : Trace), Inv n m → (subOps true n).isRunning m = false →
+theorem stopped_allExited : ∀ (n : Nat) (m : Mach n) (T : Trace), Inv n m → (subOps n).isRunning m = false →
     Bal n m T → AllExited n m T
   | 0, m, T, hi, hr, hb => by
     have hr' : ¬ m.rt.running = true := by have : m.rt.running = false := hr; simp [this]
@@ -121,8 +121,8 @@ theorem stopped_allExited : ∀ (n : Nat) (m : Mach n) (T : Trace), Inv n m → 
 
 /-- a sequence ending in `stop` leaves the root stopped (so the hypothesis above is met) -/
 theorem stop_stops (n : Nat) (m : Mach n) (hm : Inv n m) :
-    (rootRt n (applyCall true n m .stop).1).running = false := by
-  have := ((inv_all n).stop m hm).2.1
+    (rootRt n (applyCall n m .stop).1).running = false := by
+  have := ((inv_all n).stop [] m allBusy_nil hm).2.1
   cases n with
   | zero => exact this
   | succ k => exact this
